@@ -292,8 +292,9 @@ def utf8_len(c):
     return 1 if c < 0x80 else 2 if c < 0x800 else 3 if c < 0x10000 else 4
 
 
-WIDTH0 = {769, 8203, 8205}
-WIDTH2 = {28450, 12354, 65313, 128512}
+# the same facts as Chars!Width
+WIDTH0 = {173, 768, 769, 4448, 8203, 8205, 65279}
+WIDTH2 = {4352, 4447, 12288, 12354, 28450, 65281, 65313, 128512}
 
 
 def loc_table(inp):
@@ -605,6 +606,7 @@ def check_C05(tier, seed):
 
 
 LOC_SIGMA = (97, 10, 9, 27, 233, 769, 28450, 128512)
+LOC_SIGMA2 = (0x7F, 0x80, 0x7FF, 0x800, 0xFFFF, 0x10000, 13, 0x2028, 173)
 
 
 def check_C06(tier, seed):
@@ -614,13 +616,17 @@ def check_C06(tier, seed):
                              sigma=LOC_SIGMA, depth=2)
     progs += F.join_templates(seed + 3, n // 3, 6000, k=k + 1, letters=(97, 10, 233, 28450), sigma=(97, 10, 233, 28450, 769),
                               p_eoi=0.2, nsets=(1, 2), p_ctx=0.3)
+    # the UTF-8 length boundaries, carriage return and a line separator (none of them starts a line)
+    progs += F.random_general(seed + 5, max(8, n // 2), 9000, k=k, nsets=(1,), nrules=(2, 3, 4), p_eoi=0.1,
+                              menu_sizes=(1, 2), p_fal=0.1, letters=LOC_SIGMA2, sigma=LOC_SIGMA2, depth=2)
     return generic_replay_check(
         "C06", tier, progs, proj_c06_pair,
         "a location (line, column, byte index) or match text differs from the fold over the input",
         "programs: seeded random definitions over the location alphabet {a, newline, tab, ESC (a "
         "control character: no width of its own, counts 1), e-acute "
         "(2 bytes), combining acute (2 bytes, width 0), CJK (3 bytes, width 2), emoji (4 bytes, "
-        "width 2)} whose rules overlap so that lexers rewind; " + INPUTS_RULE +
+        "width 2)} whose rules overlap so that lexers rewind, and over {U+007F, U+0080, U+07FF, U+0800, "
+        "U+FFFF, U+10000 (UTF-8 length boundaries), carriage return, U+2028, soft hyphen (width 0)}; " + INPUTS_RULE +
         "compared: all Loc triples of match_loc(), tokens and errors, and match_() text; every behaviour "
         "is replayed through `new` and through `new_from_iter` (locations must be exact for both)",
         ctors=(0, 2))
